@@ -37,7 +37,7 @@ def _lit(rng, nv):
 
 
 def gen_pb(rng, nv, big=False):
-    nt = rng.randint(1, 8)
+    nt = rng.choice([1, 1, 2, 3, 4, 5, 6, 7, 8])
     cmax = 60 if big else 9
     terms = []
     for _ in range(nt):
@@ -53,7 +53,7 @@ def gen_pb(rng, nv, big=False):
         bound = rng.choice([0, 1, -1])
     else:
         bound = rng.randint(-12, 20)
-    return {"k": "pb", "terms": terms, "op": op, "bound": bound, "decomp": rng.random() < 0.4, "variant": rng.choice([0, 0, 0, 1, 2, 3])}
+    return {"k": "pb", "terms": terms, "op": op, "bound": bound, "decomp": rng.random() < 0.4, "variant": rng.choice([0, 0, 0, 1, 2, 3, 4, 4, 5])}
 
 
 def gen_constraint(rng, nv, big=False):
@@ -156,8 +156,13 @@ def build_ineq(c, lit):
         for t in c["terms"]:
             neg = neg + pb.Term(-lit(t[1:]), t[0]) + (-t[0])        # c*l = c - c*(not l)  ->  -(c*l) = c*(not l) - c
         e = -1 * neg
-    for t in (c["terms"] if variant == 0 else []):
+    for t in (c["terms"] if variant in (0, 4, 5) else []):
         e = e + shared_term(t, lit)
+    if variant in (4, 5):
+        # through the comparison operators (a bare Term on the left when there is a single term)
+        lhs = shared_term(c["terms"][0], lit) if variant == 4 and len(c["terms"]) == 1 else e
+        b = c["bound"]
+        return {">=": lambda: lhs >= b, "<=": lambda: lhs <= b, ">": lambda: lhs > b, "<": lambda: lhs < b, "=": lambda: lhs == b}[c["op"]]()
     rhs = pb.Expr() + c["bound"]
     return pb.Ineq(e, rhs, c["op"])
 
